@@ -1,2 +1,2 @@
 import ScVerif.C10.Drv
-def main : IO Unit := ScVerif.Line.runDriver ScVerif.C10.handle
+def main : IO Unit := ScVerif.Line.runDriverS ({} : ScVerif.C10.DState) ScVerif.C10.handleS
